@@ -178,7 +178,7 @@ impl FeOp {
     }
 
     pub fn j(&self) -> J {
-        J::S(format!("{self:x?}").chars().take(400).collect())
+        J::S(format!("{self:x?}").chars().take(160).collect())
     }
 
     /// Request code (spec).
@@ -546,13 +546,16 @@ pub fn rand_uuid(rng: &mut Rng) -> [u8; 16] {
     }
 }
 
+/// Largest config payload that fits a message: 4096 - sizeof(struct vhost_user_config header).
+pub const MAX_CONFIG_PAYLOAD: u32 = 0x1000 - 12;
+
 pub fn rand_config_window(rng: &mut Rng) -> (u32, u32) {
-    // valid window: size>=1, offset+size<=0x1000
+    // valid window: size>=1, offset+size<=0x1000; 12 + size must fit the 4096-byte message bound
     let size = match rng.below(4) {
         0 => 1,
-        1 => rng.range(1, 0x1000) as u32,
+        1 => rng.range(1, MAX_CONFIG_PAYLOAD as u64) as u32,
         2 => rng.range(1, 64) as u32,
-        _ => 0x1000 - rng.below(16) as u32,
+        _ => MAX_CONFIG_PAYLOAD - rng.below(16) as u32,
     };
     let off = rng.range(0, (0x1000 - size) as u64) as u32;
     (off, size)
